@@ -101,15 +101,15 @@ func checkC06(w *World, r *Report) {
 			continue
 		}
 		n := 0
-		for _, s := range cg.Sites[fn] {
-			if !calleeIs(s, "x/cfevesting/keeper.CalculateWithdrawable") {
-				continue
-			}
+		// the oracle may be called in the operation itself or in a per-pool helper: arguments are traced with the
+		// helper's parameters bound to what the operation hands down
+		for _, e := range w.effectsBelow(fn, func(s *Site) bool { return calleeIs(s, "x/cfevesting/keeper.CalculateWithdrawable") }, 2) {
+			s := e.Site
 			n++
 			a := s.Common().Args
 			t := w.Tracer()
-			o0 := t.Origins(a[0])
-			o1 := t.Origins(a[1])
+			o0 := t.OriginsVia(e, a[0], nil)
+			o1 := t.OriginsVia(e, a[1], nil)
 			ok := o0.HasCall("cosmos-sdk/types.Context.BlockTime") && !o0.HasCall("time.Now") && len(o0.Leaves) > 0 &&
 				(o1.HasPath("AccountVestingPools.VestingPools") || o1.HasCall("GetAccountVestingPools"))
 			onlyBT := true
@@ -136,7 +136,8 @@ func checkC06(w *World, r *Report) {
 	}
 	// the query's Withdrawable field is the oracle's result
 	if q := w.Func("x/cfevesting/keeper.Keeper.VestingPools"); q != nil {
-		for _, fs := range FieldStores(q) {
+		for _, sb := range w.storesBelow(q, "VestingPoolInfo", 2, nil) {
+			fs := sb.FS
 			if fs.Field == "Withdrawable" && !inlineAccepted[q] {
 				o := w.Tracer().Origins(fs.Store.Val)
 				r.Check(o.HasCall("keeper.CalculateWithdrawable") || o.HasCall("VestingPool.GetCurrentlyLocked"), "C06.sameoracle", "VestingPools: response.Withdrawable <- oracle", w.Pos(fs.Store.Pos()), "sourced from CalculateWithdrawable", "the reported withdrawable amount is not the oracle's result: "+o.String())
